@@ -103,6 +103,9 @@ class SslRecord(ParsableBase):
         body_composer.compose_numeric(message_type, 1)
         body_composer.compose_parsable(self.message)
 
+        if body_composer.composed_length >= 2 ** 15:
+            raise InvalidValue(body_composer.composed_length, type(self), 'record_length')
+
         header_composer = ComposerBinary()
         header_composer.compose_numeric(body_composer.composed_length | (2 ** 15), 2)
 
